@@ -17,45 +17,79 @@
 EXTENDS Integers, FiniteSets, TLC
 
 CONSTANT Serial           \* message identities
-VARIABLES live, ref, app, sending, released
+VARIABLES live, ref,
+          app,       \* messages the application holds at least one reference to
+          extra,     \* [app -> Nat]: references the application holds beyond the first (it called Clone itself, to send
+                     \* the same message more than once)
+          sending, released,
+          shared,    \* messages the application ever took a second reference to (history)
+          pend       \* messages the application has said it is releasing a reference of (its Free follows in the ledger)
 
-vars == <<live, ref, app, sending, released>>
-Init == live = {} /\ ref = <<>> /\ app = {} /\ sending = {} /\ released = {}
+vars == <<live, ref, app, extra, sending, released, pend, shared>>
+Init == live = {} /\ ref = <<>> /\ app = {} /\ extra = <<>> /\ sending = {} /\ released = {} /\ pend = {} /\ shared = {}
 \* ref is a function on the live messages only
 Put(f, k, v) == [x \in (DOMAIN f) \cup {k} |-> IF x = k THEN v ELSE f[x]]
 Del(f, k) == [x \in (DOMAIN f) \ {k} |-> f[x]]
+\* the number of references that are the application's
+AppRefs(s) == IF s \in app THEN 1 + extra[s] ELSE 0
 
 \* mangos.NewMessage: a fresh identity, one reference
 New(s) ==
   /\ s \notin live /\ s \notin released
   /\ live' = live \cup {s} /\ ref' = Put(ref, s, 1)
-  /\ UNCHANGED <<app, sending, released>>
-\* Message.Clone by a library holder: only on a live message the application does not own
+  /\ UNCHANGED <<app, extra, sending, released, pend, shared>>
+\* Message.Clone by a library holder: on a live message it holds a reference to - one the application does not own,
+\* or one the application has handed to a Send that is still running
 Clone(s) ==
-  /\ s \in live /\ ref[s] >= 1 /\ s \notin app
+  /\ s \in live /\ ref[s] > AppRefs(s) /\ (s \notin app \/ s \in sending)
   /\ ref' = [ref EXCEPT ![s] = @ + 1]
-  /\ UNCHANGED <<live, app, sending, released>>
-\* Message.Free by a holder
+  /\ UNCHANGED <<live, app, extra, sending, released, pend, shared>>
+\* Message.Free.  By a holder other than the application: it releases a reference of its own - never one of those
+\* the application still holds.  By the application (announced, see AppFree): one of the application's goes.
 Free(s) ==
-  /\ s \in live /\ ref[s] >= 1 /\ s \notin app
+  /\ s \in live
+  /\ IF s \in pend
+       THEN /\ s \in app
+            /\ pend' = pend \ {s}
+            /\ IF extra[s] > 0 THEN extra' = [extra EXCEPT ![s] = @ - 1] /\ app' = app
+                                ELSE extra' = Del(extra, s) /\ app' = app \ {s}
+       ELSE /\ ref[s] > AppRefs(s)
+            /\ UNCHANGED <<app, extra, pend, shared>>
   /\ ref' = IF ref[s] = 1 THEN Del(ref, s) ELSE [ref EXCEPT ![s] = @ - 1]
   /\ live' = IF ref[s] = 1 THEN live \ {s} ELSE live
   /\ released' = IF ref[s] = 1 THEN released \cup {s} ELSE released
-  /\ UNCHANGED <<app, sending>>
+  /\ UNCHANGED <<sending, shared>>
 \* the application allocated s itself
-AppNew(s) == s \in live /\ ref[s] = 1 /\ s \notin app /\ app' = app \cup {s} /\ UNCHANGED <<live, ref, sending, released>>
+AppNew(s) == /\ s \in live /\ ref[s] = 1 /\ s \notin app
+             /\ app' = app \cup {s} /\ extra' = Put(extra, s, 0) /\ UNCHANGED <<live, ref, sending, released, pend, shared>>
 \* Recv handed s to the application: it must be the only reference
-AppGot(s) == s \in live /\ ref[s] = 1 /\ s \notin app /\ s \notin sending /\ app' = app \cup {s} /\ UNCHANGED <<live, ref, sending, released>>
-\* the application releases its message (the Free that follows is the application's)
-AppFree(s) == s \in app /\ app' = app \ {s} /\ UNCHANGED <<live, ref, sending, released>>
-\* the application calls Send: until it returns the library may do what it wants with s
-AppSend(s) == s \in app /\ app' = app \ {s} /\ sending' = sending \cup {s} /\ UNCHANGED <<live, ref, released>>
-AppSendOK(s) == s \in sending /\ sending' = sending \ {s} /\ UNCHANGED <<live, ref, app, released>>
-\* Send failed: the message is the caller's again - still live, sole reference
+AppGot(s) == /\ s \in live /\ ref[s] = 1 /\ s \notin app /\ s \notin sending
+             /\ app' = app \cup {s} /\ extra' = Put(extra, s, 0) /\ UNCHANGED <<live, ref, sending, released, pend, shared>>
+\* the application takes another reference to a message that is exclusively its own (to send it twice)
+AppClone(s) ==
+  /\ s \in app /\ s \notin sending /\ ref[s] = AppRefs(s)
+  /\ ref' = [ref EXCEPT ![s] = @ + 1] /\ extra' = [extra EXCEPT ![s] = @ + 1] /\ shared' = shared \cup {s}
+  /\ UNCHANGED <<live, app, sending, released, pend>>
+\* the application announces that it releases one of its references (the next Free of s in the ledger is that one)
+AppFree(s) ==
+  /\ s \in app /\ s \notin pend
+  /\ pend' = pend \cup {s}
+  /\ UNCHANGED <<live, ref, app, extra, sending, released, shared>>
+\* the application calls Send: one of its references goes with the call; until Send returns the library may do
+\* what it wants with that one reference - and with that one only
+AppSend(s) ==
+  /\ s \in app /\ s \notin sending
+  /\ IF extra[s] > 0 THEN extra' = [extra EXCEPT ![s] = @ - 1] /\ app' = app
+                      ELSE extra' = Del(extra, s) /\ app' = app \ {s}
+  /\ sending' = sending \cup {s} /\ UNCHANGED <<live, ref, released, pend, shared>>
+AppSendOK(s) == s \in sending /\ sending' = sending \ {s} /\ UNCHANGED <<live, ref, app, extra, released, pend, shared>>
+\* Send failed: the reference is the caller's again - the message is still live and nobody else holds it
 AppSendFail(s) ==
-  /\ s \in sending /\ s \in live /\ ref[s] = 1
-  /\ sending' = sending \ {s} /\ app' = app \cup {s}
-  /\ UNCHANGED <<live, ref, released>>
+  /\ s \in sending /\ s \in live /\ ref[s] = AppRefs(s) + 1
+  /\ sending' = sending \ {s}
+  /\ IF s \in app THEN extra' = [extra EXCEPT ![s] = @ + 1] /\ app' = app
+                   ELSE extra' = Put(extra, s, 0) /\ app' = app \cup {s}
+  /\ UNCHANGED <<live, ref, released, pend, shared>>
 
 \* mangos.NewMessage(sz): the first pool class with sz < class, else an exact buffer
 PoolClasses == <<64, 128, 256, 512, 1024, 4096, 8192, 65536>>
@@ -64,12 +98,15 @@ PoolCap(sz) == IF \E i \in 1..8 : sz < PoolClasses[i]
                  ELSE sz
 NewIsEmpty(sz, len, cap, hl) == len = 0 /\ hl = 0 /\ cap >= sz /\ cap = PoolCap(sz)
 
-Next == \E s \in Serial : New(s) \/ Clone(s) \/ Free(s) \/ AppNew(s) \/ AppGot(s) \/ AppFree(s) \/ AppSend(s) \/ AppSendOK(s) \/ AppSendFail(s)
+Next == \E s \in Serial : New(s) \/ Clone(s) \/ Free(s) \/ AppNew(s) \/ AppGot(s) \/ AppClone(s) \/ AppFree(s) \/ AppSend(s) \/ AppSendOK(s) \/ AppSendFail(s)
 Spec == Init /\ [][Next]_vars
 
 \* invariants that hold by construction of the actions; the trace specification checks that every
 \* observed operation is one of these actions with the observed reference count
 RefPositive == DOMAIN ref = live /\ \A s \in live : ref[s] >= 1
 ReleasedDead == \A s \in released : s \notin live /\ s \notin DOMAIN ref
-AppOwnsAlone == \A s \in app : s \in live /\ ref[s] = 1
+\* what the application holds is live, its references are never released by anybody else, and outside a Send a
+\* message of the application's that it never shared has no other holder
+AppOwnsAlone == \A s \in app : s \in live /\ ref[s] >= AppRefs(s) /\ ((s \notin sending /\ s \notin shared) => ref[s] = AppRefs(s))
+ExtraOnApp == DOMAIN extra = app
 =============================================================================
